@@ -10,6 +10,8 @@ import EaselModel.Getopts.IllFormed
 import EaselModel.Getopts.HelpLemmas
 import EaselModel.Getopts.RoundLemmas
 import EaselModel.Getopts.EmptyArg
+import EaselModel.Getopts.RealRoundLemmas
+import EaselModel.Getopts.DumpText
 /-! # C14 — option processing resolves every configuration by the documented rules
 
 Property theorems about the executable model `EaselModel.Getopts` of `esl_getopts.c` (tied to the working tree by
@@ -41,6 +43,10 @@ and every sequence of sources:
   `real_range_test_monotone`, `inclusive_real_bound_accepts_every_true_member`
 * `--name=` with an EMPTY attached value (`EmptyArg.lean`): `flag_with_empty_value_is_usage_error`, `empty_attached_value_is_the_argument`,
   `empty_attached_value_consumes_nothing`, `empty_value_rejected_by_numeric_types`, `empty_value_stored_by_string_types`, `empty_value_char_is_terminator`
+* real ranges over the ROUNDED values (`RealRound.lean`: what `verify_real_range` really compares; any number of digits):
+  `real_range_two_sided_on_doubles`, `real_range_two_sided_literal_on_doubles`, `real_range_lower_on_doubles`, `real_range_upper_on_doubles`,
+  `rounding_never_reorders_magnitudes`, `lower_bound_on_doubles_is_monotone`
+* `esl_getopts_Dump` (`DumpText.lean`): `dump_tells_setters_apart`, `dump_boolean_setting_is_IsOn`, `dump_never_crashes`
 * (f) queries: `isUsed_iff`, `isDefault_of_default_setter`, `not_default_has_setter`
 
 Not proved here (checked by the differential run only): that the decimal `strtod`/`strtol` models agree with glibc;
@@ -864,5 +870,54 @@ example : (match processCmdline demoG [s "prog", s "--mul=", s "x"] with | .done
     (match processCmdline demoG [s "prog", s "--lown=", s "5"] with | .done g st m => some (st, m, g.valOf 4) | .fault => none)
       = some (.esyntax, true, .str (s "42")) := by decide
 example : '=' ∉ s "--multi" ∧ optidxAbbrev demo (s "--multi") = .found 6 ∧ (demo.getD 6 default).type ≠ 0 := by decide
+
+/-! ## real ranges on the values the C code compares: the doubles -/
+
+theorem real_range_two_sided_on_doubles (v lo hi : Str) (geq leq : Bool) (hc : 'x' ∉ lo) (hhi : leq = false → hi.head? ≠ some '=') :
+    realRangeOkD v (some (twoSided 'x' lo geq leq hi)) =
+      ((if geq then Dec.dle (atof (twoSided 'x' lo geq leq hi)) (atof v) else Dec.dlt (atof (twoSided 'x' lo geq leq hi)) (atof v)) &&
+       (if leq then Dec.dle (atof v) (atof hi) else Dec.dlt (atof v) (atof hi))) := realRangeOkD_twoSided v lo hi geq leq hc hhi
+
+theorem real_range_two_sided_literal_on_doubles (v lo hi : Str) (geq leq : Bool) {neg : Bool} {ip fp : Str} {dot : Bool}
+    (hlo : RealLit lo neg ip fp dot) (hhi : leq = false → hi.head? ≠ some '=') :
+    realRangeOkD v (some (twoSided 'x' lo geq leq hi)) =
+      ((if geq then Dec.dle (atof lo) (atof v) else Dec.dlt (atof lo) (atof v)) &&
+       (if leq then Dec.dle (atof v) (atof hi) else Dec.dlt (atof v) (atof hi))) := realRangeOkD_twoSided_lit v lo hi geq leq hlo hhi
+
+theorem real_range_lower_on_doubles (v a : Str) (incl : Bool) (h : incl = false → a.head? ≠ some '=') :
+    realRangeOkD v (some ('x' :: '>' :: ((if incl then ['='] else []) ++ a))) =
+      (if incl then Dec.dle (atof a) (atof v) else Dec.dlt (atof a) (atof v)) := realRangeOkD_lower v a incl h
+
+theorem real_range_upper_on_doubles (v b : Str) (incl : Bool) (h : incl = false → b.head? ≠ some '=') :
+    realRangeOkD v (some ('x' :: '<' :: ((if incl then ['='] else []) ++ b))) =
+      (if incl then Dec.dle (atof v) (atof b) else Dec.dlt (atof v) (atof b)) := realRangeOkD_upper v b incl h
+
+theorem rounding_never_reorders_magnitudes (a b : Dec) (ha : a.mant ≠ 0) (hb : b.mant ≠ 0) (ha1 : ¬ a.exp > 5000) (ha2 : ¬ a.exp < -5000)
+    (hb1 : ¬ b.exp > 5000) (hb2 : ¬ b.exp < -5000) (h : a.frac.1 * b.frac.2 ≤ b.frac.1 * a.frac.2) : a.dmag ≤ b.dmag :=
+  dmag_mono a b ha hb ha1 ha2 hb1 hb2 h
+
+theorem lower_bound_on_doubles_is_monotone (lo x y : Dec) (hxn : x.neg = false) (hyn : y.neg = false) (h : x.dmag ≤ y.dmag)
+    (hacc : Dec.dle lo x = true) : Dec.dle lo y = true := dle_mono_right lo x y hxn hyn h hacc
+
+/-- where exact decimals and doubles part: `0.1000000000000000055` is above 0.1 as a decimal but the same double, so
+    `x>0.1` refuses it (as the C code does) while the exact-decimal test would accept; `x>=0.1` accepts it either way -/
+example : realRangeOkD (s "0.1000000000000000055") (some (s "x>0.1")) = false ∧ realRangeOk (s "0.1000000000000000055") (some (s "x>0.1")) = true ∧
+    realRangeOkD (s "0.1000000000000000055") (some (s "x>=0.1")) = true ∧
+    realRangeOkD (s "0.99999999999999999999") (some (s "0<x<1")) = false ∧ realRangeOkD (s "1e400") (some (s "x<=1.7e308")) = false ∧ realRangeOkD (s "1e400") (some (s "x<=1.8e308")) = true := by decide +kernel
+
+/-! ## `esl_getopts_Dump` -/
+
+theorem dump_tells_setters_apart (k : Nat) : setterText k = "(default) ".toList ↔ k = byDefault := setterText_default_iff k
+
+theorem dump_boolean_setting_is_IsOn (g : G) (i : Nat) (ht : (g.opt i).type = 0) :
+    settingText g i = some (if isOn g i then "on".toList else "off".toList) := settingText_boolean g i ht
+
+theorem dump_never_crashes (g : G) (hval : ∀ i, (g.opt i).type ≠ 0 → g.valOf i ≠ .one) : (dumpText g).isSome = true :=
+  dumpText_total g hval
+
+example : (match processCmdline demoG [s "prog", s "-b", s "f"] with
+    | .done g .ok _ => (dumpText g).map (fun t =>
+        (s "argv[0]:                prog\nargument  1 (argv[ 2]): f\n\n      Option      Setting    Set by\n------------ ------------ ---------\n-a           off          (default) \n-b           on           cmdline   \n").isPrefixOf t)
+    | _ => none) = some true := by decide +kernel
 
 end EaselModel.Props.C14
